@@ -12,7 +12,9 @@ from .ops.maps import CONVERTERS
 from .snap import alpha_list
 
 ASCII_TITLES = ["Song", "A B", "x", "Title 1", "Caravan", "Escapes!", "q-w_e", "Take"]
-UNI_TITLES = ["Song", "曲", "ｆｏｏ", "Ünïcode", "A:B", "日本語 タイトル"]
+UNI_TITLES = ["Song", "曲", "ｆｏｏ", "Ünïcode", "A:B", "日本語 タイトル",
+              # characters str.splitlines() / str.split() treat as separators but the formats do not (inside a value)
+              "星\u2028空", "音\x85楽", "a\x0cb", "Vol.1\u2029Vol.2", "v\x1cw\x1dx\x1ey", "tab\x0bv"]
 CREATORS = ["me", "Evening", "c c", "x_y", ""]
 SM_TYPES = {4: "dance-single", 8: "dance-double", 6: "dance-solo", 3: "dance-threepanel", 7: "kb7-single"}
 QUA_MODES = {4: "Keys4", 7: "Keys7", 8: "Keys8"}
@@ -101,9 +103,13 @@ def gen_map_meta(r: random.Random, game: str, keys: int) -> dict:
     if game == "qua":
         return dict(title=t, artist=a, creator=r.choice(CREATORS), difficulty_name=r.choice(["Easy", "Hard", "x y"]),
                     mode=QUA_MODES.get(keys, "Keys4"), audio_file="audio.mp3", background_file=r.choice(["bg.jpg", ""]),
-                    song_preview_time=r.choice([0, 1000, 12345]), tags=list(r.choice([[], ["a"], ["a", "b"]])))
+                    song_preview_time=r.choice([0, 1000, 12345]), tags=list(r.choice([[], ["a"], ["a", "b"]])),
+                    description=r.choice(["", "", "d", "l1\nl2\n\nl4", "ends with a break\n"]), source=r.choice(["", "src", "two\nlines"]))
     if game == "sm":
-        return dict(chart_type=SM_TYPES.get(keys, "dance-single"), description=r.choice(["", "d"]),
+        ctype = SM_TYPES.get(keys, "dance-single")
+        if keys == 8 and r.random() < 0.5:
+            ctype = r.choice(["dance-couple", "dance-routine"])  # StepMania's other 8-column dance types
+        return dict(chart_type=ctype, description=r.choice(["", "d"]),
                     difficulty=r.choice(["Easy", "Hard", "Challenge"]), difficulty_val=r.choice([1, 5, 12]))
     if game == "bms":
         m = dict(title=t.encode("ascii"), artist=a.encode("ascii"), version=r.choice([b"1", b"12", b"5"]),
@@ -402,6 +408,16 @@ class Gen:
                 if shared_bpms is None:
                     shared_bpms = lists["bpms"]
                 lists["bpms"] = [dict(b) for b in shared_bpms]
+            if self.propless_chart_p and n > 1 and i < n - 1 and self.d.random() < self.propless_chart_p:
+                # a chart - not the last of the set - in which no object carries some property: its row of the mapset
+                # stack's frame for that property is entirely NaN
+                mode = self.d.choice(["no_holds", "no_holds", "no_notes", "no_bpms", "empty"])
+                if game == "sm" and mode in ("no_bpms", "empty"):
+                    mode = "no_notes"  # StepMania charts share the set's tempo list
+                for k in list(lists):
+                    if (mode == "no_holds" and k in ("holds", "rolls")) or (mode == "no_notes" and k not in ("bpms", "svs")) \
+                            or (mode == "no_bpms" and k == "bpms") or mode == "empty":
+                        lists[k] = []
             nm = self.new_h()
             names.append(nm)
             ops.append(self.mk("map.new", game=inner, lists=lists, meta=meta, how="items", out=nm, keys=keys))
@@ -474,6 +490,7 @@ class Gen:
         return h and self.mk("map.deepcopy", h=h.name, out=self.new_h())
 
     RATES = [0.5, 0.75, 1, 1.0, 1.1, 1.5, 2, 2.0, 1 / 3, 1.25]
+    propless_chart_p = 0.0  # chance that a non-last chart of a generated set lacks holds / notes / tempo points
 
     def p_rate(self):
         h = self.pick("map", "mapset", pred=self._rate_ok)
@@ -757,7 +774,8 @@ class GenC14(Gen):
 
 
 class GenC12(Gen):
-    table = dict(map_new=8, mapset_new=2, map_edit_list=5, stack=10, stack_read=6, stack_assign=14, stack_loc=14,
+    propless_chart_p = 0.4
+    table = dict(map_new=8, mapset_new=3, map_edit_list=5, stack=10, stack_read=6, stack_assign=14, stack_loc=14,
                  map_get_list=2, col_arith=1, map_deepcopy=1, rate=1)
     max_handles = 8
 
@@ -1500,6 +1518,11 @@ class GenC09(FileGen):
                 for f in ("TITLE", "ARTIST", "CREDIT"):
                     if f in doc["meta"]:
                         doc["meta"][f] = asc()
+        if sg == "qua":
+            # the line-oriented targets cannot hold a line break inside a header value: such text is outside what C09 speaks of
+            for f, v in list(doc["meta"].items()):
+                if isinstance(v, str) and ("\n" in v or "\r" in v):
+                    doc["meta"][f] = self.d.choice(ASCII_TITLES)
         path = self.new_path(sg)
         src = self.new_h()
         rd = self.io_read_op(sg, path, out=src)
